@@ -73,6 +73,35 @@ impl RIface {
         m.extend(self.members.iter().filter(|x| matches!(x.kind, RKind::Error(_))).cloned());
         RIface { comments: self.comments.clone(), name: self.name.clone(), members: m }
     }
+    /// Comments on the interface, its members and their DIRECT fields / parameters / variants kept,
+    /// comments on the fields and variants of inline types nested inside a type dropped: the
+    /// statements name the former only (the library drops the latter when it parses).
+    pub fn without_nested_comments(&self) -> RIface {
+        let stripped = self.without_comments();
+        RIface {
+            comments: self.comments.clone(),
+            name: self.name.clone(),
+            members: self
+                .members
+                .iter()
+                .zip(stripped.members.iter())
+                .map(|(m, s)| {
+                    let direct = |orig: &[RField], bare: &[RField]| -> Vec<RField> { orig.iter().zip(bare).map(|(o, b)| RField { comments: o.comments.clone(), name: b.name.clone(), ty: b.ty.clone() }).collect() };
+                    RMember {
+                        comments: m.comments.clone(),
+                        name: m.name.clone(),
+                        kind: match (&m.kind, &s.kind) {
+                            (RKind::TypeStruct(o), RKind::TypeStruct(b)) => RKind::TypeStruct(direct(o, b)),
+                            (RKind::TypeEnum(o), _) => RKind::TypeEnum(o.clone()),
+                            (RKind::Method(oi, oo), RKind::Method(bi, bo)) => RKind::Method(direct(oi, bi), direct(oo, bo)),
+                            (RKind::Error(o), RKind::Error(b)) => RKind::Error(direct(o, b)),
+                            _ => m.kind.clone(),
+                        },
+                    }
+                })
+                .collect(),
+        }
+    }
     pub fn without_comments(&self) -> RIface {
         fn ty(t: &RType) -> RType {
             match t {
